@@ -36,15 +36,19 @@ def hUniquePerms : Handler := fun j => do
 
 /-- `perfect_matchings(n)` / `perfect_matchings(list)` -/
 def hPerfectMatchings : Handler := fun j => do
+  if let .ok n := getNat j "n" then             -- the `int` argument form
+    if n == 0 then return reject "RecursionError"
+    return Json.mkObj [("rows", Json.arr ((perfectMatchingsInt n).map natListJson).toArray), ("cols", Json.num (n : Nat))]
   let objs ← getIntList j "objects"
   if objs.length == 0 then return reject "RecursionError"
   return Json.mkObj [("rows", intListListJson (perfectMatchings objs)), ("cols", Json.num (objs.length : Nat))]
 
 /-- rows `0..N-1` (proved to be the rows of the model matrix: `Toq.Combinat.symProjRow_get` etc.) -/
-def projJson (N : Nat) (row : Nat → List Int) : Json :=
+def projJson (N : Nat) (row : Nat → List Int) (rank : Nat) : Json :=
   let rows := (List.range N).map row
   let tr : Int := ((List.range N).map (fun i => (rows.getD i []).getD i 0)).sum
-  Json.mkObj [("shape", natListJson [N, N]), ("data", intListJson rows.flatten), ("trace", Json.num tr)]
+  Json.mkObj [("shape", natListJson [N, N]), ("data", intListJson rows.flatten), ("trace", Json.num tr),
+    ("rank", Json.num (rank : Nat))]   -- the proved rank (`Toq.C18.symSpec_rank` / `antiSpec_rank`): `C(d+p-1, p)` or `C(d, p)`
 
 /-- `which`: "sym" | "antisym" (mirrors) | "sym_ref" | "antisym_ref" (reference); output scaled by `p!` -/
 def hProj : Handler := fun j => do
@@ -55,10 +59,29 @@ def hProj : Handler := fun j => do
   if p < 1 then return reject "InvalidPVal"
   let N := if p == 1 && (which == "sym" || which == "antisym") then d else d ^ p
   match which with
-  | "sym" => return projJson N (symProjRow d p N)
-  | "antisym" => return projJson N (antisymProjRow d p N)
-  | "sym_ref" => return projJson N (symRefRow d p N)
-  | "antisym_ref" => return projJson N (antisymRefRow d p N)
+  | "sym" => return projJson N (symProjRow d p N) (binom (d + p - 1) p)
+  | "antisym" => return projJson N (antisymProjRow d p N) (binom d p)
+  | "sym_ref" => return projJson N (symRefRow d p N) (binom (d + p - 1) p)
+  | "antisym_ref" => return projJson N (antisymRefRow d p N) (binom d p)
+  | _ => throw "which"
+
+def formJson (f : PartialForm) : Json :=
+  let kind := match f with
+    | .eye _ => "eye" | .zeros _ _ => "zeros" | .full _ => "full" | .orth _ _ => "orth"
+  Json.mkObj [("kind", Json.str kind), ("shape", natListJson [f.shape.1, f.shape.2])]
+
+/-- which branch `symmetric_projection` / `antisymmetric_projection(dim, p, partial)` takes and the shape it returns -/
+def hForm : Handler := fun j => do
+  let d ← getNat j "dim"
+  let p ← getNat j "p"
+  let part ← getBool j "partial"
+  let which ← (← j.getObjVal? "which").getStr?
+  match which with
+  | "sym" =>
+    if d < 1 then return reject "InvalidDim"
+    if p < 1 then return reject "InvalidPVal"
+    return formJson (symForm d p part)
+  | "antisym" => return formJson (antisymForm d p part)
   | _ => throw "which"
 
 /-- `list(permutations(np.arange(p)))` -/
@@ -68,6 +91,6 @@ def hPermsList : Handler := fun j => do
 
 def handlers : List (String × Handler) :=
   [("c18_perm_sign", hPermSign), ("c18_unique_perms", hUniquePerms), ("c18_perfect_matchings", hPerfectMatchings),
-   ("c18_proj", hProj), ("c18_perms_list", hPermsList)]
+   ("c18_proj", hProj), ("c18_perms_list", hPermsList), ("c18_form", hForm)]
 
 end Toq.Driver.C18
